@@ -27,7 +27,9 @@ template <class C> struct World {     // owns every object a history creates; re
     std::deque<std::basic_string<C> > texts; std::deque<Uri> uris; Uri bases[NB]; std::basic_string<C> base_text[NB];
     World() { for (int i = 0; i < NB; i++) { base_text[i] = widen<C>(BASES[i]); const C *ep; A::ParseSingleUriEx(&bases[i], base_text[i].data(), base_text[i].data() + base_text[i].size(), &ep); } }
     ~World() { for (auto &u : uris) A::FreeUriMembers(&u); for (int i = 0; i < NB; i++) A::FreeUriMembers(&bases[i]); }
-    Uri *parse(const Str &t) { texts.push_back(widen<C>(t)); uris.emplace_back(); const C *ep; int rc = A::ParseSingleUriEx(&uris.back(), texts.back().data(), texts.back().data() + texts.back().size(), &ep); return rc == URI_SUCCESS ? &uris.back() : 0; }
+    // every text is parsed as a range in front of a '5' (a digit, a hex digit, an octet's third digit): what follows the range is no part of
+    // the URI, and an object whose content was decided by it does not survive being written and read back
+    Uri *parse(const Str &t) { texts.push_back(widen<C>(t + "5")); uris.emplace_back(); const C *ep; int rc = A::ParseSingleUriEx(&uris.back(), texts.back().data(), texts.back().data() + texts.back().size() - 1, &ep); return rc == URI_SUCCESS ? &uris.back() : 0; }
     // returns the new current object; *rc receives the library's code; not_applicable when the op has no meaning for this state
     Uri *apply(const Str &op, Uri *cur, int *rc, bool *na) {
         *na = false; *rc = URI_SUCCESS; char k = op[0]; int b = 0, o = 0;
@@ -93,7 +95,7 @@ template <class C> struct Explorer {
     }
     // replay a history on fresh objects; returns key of the final object ("" if the history is not executable)
     Str replay(const Str &init, const std::vector<Str> &hist, Str *viol, bool *progressed) {
-        World<C> w; Uri *cur = w.parse(init); if (!cur) { ctx->harness_error("initial text does not parse: " + init); return ""; }
+        World<C> w; Uri *cur = w.parse(init); if (!cur) { if (ref::is_uri_reference(init)) ctx->harness_error("initial text does not parse: " + init); return ""; }   // the deliberately malformed initial texts are expected to be refused
         lc->replays++; *progressed = true;
         for (size_t i = 0; i < hist.size(); i++) {
             int rc; bool na; bool last = i + 1 == hist.size(); Str before = last ? observe<C>(*cur).key() : Str();
@@ -148,7 +150,7 @@ template <class C> struct Explorer {
 
 static std::vector<Str> initial_states(int size) {
     std::vector<Str> v = shape_list(0); std::set<Str> seen(v.begin(), v.end());
-    std::vector<Str> tok = { "", ".", "..", "a", "c:d", "1:e", ":", "%2e", "A%41" };
+    std::vector<Str> tok = { "", ".", "..", "a", "c:d", "1:e", ":", "b:", "%2e", "A%41" };
     int n = size == 0 ? 1 : size == 1 ? 2 : 3;
     std::vector<Str> rl = path_token_paths(tok, n, 0), ab = path_token_paths(tok, n, 1);
     auto add = [&](const Str &s) { if (ref::is_uri_reference(s) && seen.insert(s).second) v.push_back(s); };
@@ -162,6 +164,8 @@ static std::vector<Str> initial_states(int size) {
     for (auto h : { "1%2E2.3.4", "%31.2.3.4", "1.2.3.%34", "1%2e2.3.256", "100.99.10.255", "1%30%30.100.9.0", "255.255%2E255.255" }) { add(Str("//") + h + "/x"); add(Str("s://u@") + h + ":1"); }
     // IPvFuture literals holding every kind of character the rule allows next to upper-case letters (case folding of the literal must touch letters only)
     for (auto h : { "[V1.Ab_Cd]", "[vA.~-_.!$&'()*+,;=:Z]", "[v1F.Q_q]" }) { add(Str("S://") + h + "/x"); add(Str("//u@") + h + ":1"); }
+    for (auto t : { "/a%4", "?q%4", "s://h/x#%4", "//u%4@h", "//h%4" }) v.push_back(t);    // no URI references: a parse that accepts one of them (helped by the character behind the range) yields an object whose text does not read back
+    for (auto t : { "//10.0.0.25", "s://u@1.2.3.25", "//10.0.0.2%35/p", "s://10.0.0.%32%35", "//h/a%41", "?q%41", "#f%2e" }) add(t);   // texts whose last token could be continued by the character behind the range
     // deeper paths over a reduced alphabet: runs of empty segments behind dot segments
     if (size >= 1) { std::vector<Str> d0 = path_token_paths({ "", ".", "..", "b" }, n + 2, 0), d1 = path_token_paths({ "", ".", "..", "b" }, n + 2, 1);
         for (auto &p : d0) { add(p); add("s:" + p); } for (auto &p : d1) { add(p); add("s:" + p); add("//h" + p); } }
